@@ -343,7 +343,36 @@ def run(ctx, repo, tier):
                         unknown_w = st
                 else:
                     unknown_w = st
-        if nested:
+        # every (name, value) binding of the two arrays anywhere in the body, tuple assignments split into their components
+        def bindings(root):
+            for n_ in ast.walk(root):
+                if isinstance(n_, ast.Assign) and len(n_.targets) == 1:
+                    t_ = n_.targets[0]
+                    if isinstance(t_, ast.Tuple) and isinstance(n_.value, ast.Tuple) and len(t_.elts) == len(n_.value.elts):
+                        for a_, b_ in zip(t_.elts, n_.value.elts):
+                            yield n_, src(a_), b_
+                    elif isinstance(t_, ast.Tuple):
+                        for a_ in t_.elts:
+                            yield n_, src(a_), n_.value
+                    else:
+                        yield n_, src(t_), n_.value
+        trunc = []
+        for st_, nm_, val_ in bindings(gd.node):
+            if nm_ == vname and isinstance(val_, ast.Subscript) and elementwise_of(val_.value, vname) and isinstance(val_.slice, ast.Slice) and \
+                    (val_.slice.upper is not None or val_.slice.lower is not None):
+                trunc.append(st_)
+        first_sort = None
+        for st_ in gd.node.body:
+            if isinstance(st_, ast.Assign) and len(st_.targets) == 1 and src(st_.targets[0]) == vname and not elementwise_of(st_.value, vname):
+                first_sort = st_
+                break
+        early = [t_ for t_ in trunc if first_sort is None or t_.lineno < first_sort.lineno]
+        nested = [n_ for n_ in nested if not (isinstance(n_, ast.Assign) and isinstance(n_.targets[0], ast.Tuple))]
+        if early:
+            ctx.violate("ORD", "C14.decomp.values", "the eigenvalue array is truncated BEFORE it is sorted: a dense solver returns the spectrum in no "
+                        "particular order, so an arbitrary subset survives - the largest (zero) eigenvalue and the stationary vector may be "
+                        "cut away", dw, norm_stmt(early[0]), witness="slice of the unsorted eigenvalues precedes the descending sort")
+        elif nested:
             ctx.inconclusive("ORD", "C14.decomp.values", "eigenvalue / eigenvector arrays are re-assigned inside a nested block", dw, norm_stmt(nested[0]))
             ctx.inconclusive("PAIR", "C14.decomp.vectors", "eigenvalue / eigenvector arrays are re-assigned inside a nested block", dw, norm_stmt(nested[0]))
         else:
@@ -410,6 +439,13 @@ def run(ctx, repo, tier):
     from .C05 import analyse as c05_analyse
     for prop in ("border_len", "center_distances"):
         c05_analyse(ctx, repo, prop)
+    # ------------------------------------------------------------ inherited: the lift of the position matrix to the full grid (C02): entry
+    # (n_b*i+k, n_b*j+k) of borders AND distances must carry the value of the position pair (i,j) - S_ij/h_ij is formed entry by entry
+    from ..driver import PrefixCtx as _PC
+    from .C02 import analyse as c02_analyse
+    for prop in ("border_len", "center_distances"):
+        for nb_ctx in ("sym", "one"):
+            c02_analyse(_PC(ctx, "C02.", "C14.lift."), repo, prop, nb_ctx)
     # ------------------------------------------------------------ inherited: folded rotation block
     check_fold(ctx, repo, "C14")
     # ------------------------------------------------------------ inherited: cell order and value of the saved volumes (C02)
